@@ -1090,9 +1090,16 @@ impl CompilerContext<'_> {
         self.validate_mapfile_signatures()
     }
 
+    /// All signatures, in a deterministic order (the tables are hash maps; errors found while
+    /// validating signatures must not come out in hash order).
     fn all_signatures(&self) -> impl Iterator<Item=&'_ Signature> {
-        let ins_sigs = self.defs.instrs.values().map(|data| &data.sig);
-        let non_ins_sigs = self.defs.funcs.values().filter_map(|func| func.sig.as_ref());
+        let mut ins_sigs = self.defs.instrs.iter().collect::<Vec<_>>();
+        ins_sigs.sort_by_key(|&(&(language, opcode), _)| (language as usize, opcode));
+        let mut non_ins_sigs = self.defs.funcs.iter().collect::<Vec<_>>();
+        non_ins_sigs.sort_by_key(|&(&def_id, _)| def_id);
+
+        let ins_sigs = ins_sigs.into_iter().map(|(_, data)| &data.sig);
+        let non_ins_sigs = non_ins_sigs.into_iter().filter_map(|(_, func)| func.sig.as_ref());
         ins_sigs.chain(non_ins_sigs)
     }
 
